@@ -139,3 +139,32 @@ pub open spec fn st0_ok(a: Seq<Scalar>, b: Seq<Scalar>, pp: PP) -> bool {
     &&& forall|q: int| 0 <= q < a.len() ==> #[trigger] a[q] == pp.a0(q)
     &&& forall|q: int| 0 <= q < b.len() ==> #[trigger] b[q] == pp.b0(q)
 }
+// a left fold with step  acc + x*y^(off+k)*z  computes the weighted inner product
+pub proof fn lemma_wip_chain(accs: Seq<Scalar>, xs: Seq<Scalar>, zs: Seq<Scalar>, y: Scalar, off: nat, n: nat)
+    requires accs.len() == n + 1, accs[0] == Scalar::ZERO,
+        forall|k: int| 1 <= k <= n ==> #[trigger] accs[k] == s_add(accs[k - 1], s_mul(s_mul(xs[k - 1], s_pow(y, (off + k - 1) as nat)), zs[k - 1]))
+    ensures accs[n as int] == wip(xs, zs, y, off, n)
+    decreases n
+{
+    if n > 0 {
+        lemma_wip_chain(accs.take(n as int), xs, zs, y, off, (n - 1) as nat);
+        assert(accs.take(n as int)[n - 1] == accs[n - 1]);
+    }
+}
+// Iterator::fold with the prover's step closure over (x_k, y^(off+k), z_k) triples is the weighted inner product
+pub proof fn lemma_fold_wip<'a, F: FnMut(Scalar, (&'a Scalar, &'a Scalar, &'a Scalar)) -> Scalar>(items: Seq<(&'a Scalar, &'a Scalar, &'a Scalar)>, f: F, r: Scalar,
+        xs: Seq<Scalar>, zs: Seq<Scalar>, y: Scalar, off: nat, n: nat)
+    requires
+        exists|accs: Seq<Scalar>| fold_chain(accs, items, Scalar::ZERO, f, r),
+        items.len() == n,
+        forall|acc: Scalar, x: (&'a Scalar, &'a Scalar, &'a Scalar), out: Scalar| #[trigger] f.ensures((acc, x), out) ==> out == s_add(acc, s_mul(s_mul(*x.0, *x.1), *x.2)),
+        forall|k: int| 0 <= k < n ==> *(#[trigger] items[k]).0 == xs[k] && *items[k].1 == s_pow(y, (off + k) as nat) && *items[k].2 == zs[k],
+    ensures r == wip(xs, zs, y, off, n)
+{
+    reveal(fold_chain);
+    let accs = choose|accs: Seq<Scalar>| fold_chain(accs, items, Scalar::ZERO, f, r);
+    assert forall|k: int| 1 <= k <= n implies #[trigger] accs[k] == s_add(accs[k - 1], s_mul(s_mul(xs[k - 1], s_pow(y, (off + k - 1) as nat)), zs[k - 1])) by {
+        assert(f.ensures((accs[k - 1], items[k - 1]), accs[k]));
+    }
+    lemma_wip_chain(accs, xs, zs, y, off, n);
+}
